@@ -606,9 +606,14 @@ def spawn_layer_in_subprocess(result, script_parts, options, features,
         # '\n'; test names may contain other line separators such as '\r'.
         # Whatever follows the last '\n' was cut short (the subprocess died
         # while writing it) and is not a line of the report.
-        errlines = stderr_buf[0].split(b'\n')
+        stderr_data = stderr_buf[0]
+        if isinstance(stderr_data, str):
+            # stand-ins for Popen may deliver text
+            stderr_data = stderr_data.encode('utf-8', 'backslashreplace')
+        errlines = stderr_data.split(b'\n')
         erriter = iter(errlines[:-1])
-        if errlines[-1] == b'':
+        last_line = errlines[-1]
+        if last_line == b'':
             del errlines[-1]
         nfail = nerr = 0
         names = []
@@ -624,6 +629,16 @@ def spawn_layer_in_subprocess(result, script_parts, options, features,
                 names = list(itertools.islice(erriter, nfail + nerr))
                 report_complete = len(names) == nfail + nerr
                 break
+        else:
+            # A header that announces no names is complete even without
+            # its '\n': nothing can be missing from it.
+            try:
+                num_ran, nfail, nerr = map(int, last_line.strip().split())
+            except ValueError:
+                pass
+            else:
+                nfail, nerr = max(nfail, 0), max(nerr, 0)
+                report_complete = nfail + nerr == 0
         if report_complete:
             result.num_ran = num_ran
         else:
